@@ -72,18 +72,19 @@ class _Chk(object):
         self.failed = False
         self.size = sum(x if isinstance(x, int) else len(str(x)) for x in case["spec"])
 
-    def viol(self, tag, text):
+    def viol(self, tag, text, script=None):
         self.failed = True
-        self.acc.violation("C18/%s/%s" % (self.fam, tag), "%s: %s" % (self.name, text), self.case, size=self.size)
+        self.acc.violation("C18/%s/%s" % (self.fam, tag), "%s: %s" % (self.name, text), self.case, script=script, size=self.size)
 
     def calls(self, calls, want_rf=None):
         """every recorded Integer.random / random_range call must be in bounds and equal the reference"""
-        for c in calls:
+        for c in sorted(calls, key=lambda c: not c[2]):      # draws from the caller's tape first (deterministic)
             self.acc.count("recorded_integer_draws")
             self.acc.seen("recorded", (self.fam, c[0], c[2]))
             r = check_recorded_call(c)
             if r:
-                self.viol("%s/%s" % ("internal-draw" if c[2] else "system-rng-draw", r[0]), r[1])
+                self.viol("%s/%s" % ("internal-draw" if c[2] else "system-rng-draw",
+                                     r[0] if r[0] == "out-of-range" else "not-the-reference-rejection-sampler"), r[1])
                 return False
         return True
 
@@ -232,7 +233,8 @@ def check_dsasig(L, kind, acc):
         return ck.viol("drawn-nonce-refused-by-signer",
                        "sign() raises ValueError(%r): FipsDsaSigScheme draws the nonce with random_range(min_inclusive=1, "
                        "max_exclusive=q) and this tape (first %d bytes %s) makes it draw k = %s, which DsaKey._sign does not "
-                       "accept (it demands 1 < k < q)" % (str(e), len(head), short(head, 16), "1" if k == 1 else short(k)))
+                       "accept (it demands 1 < k < q)" % (str(e), len(head), short(head, 16), "1" if k == 1 else short(k)),
+                       script=DSA_NONCE_SCRIPT % (p, q, g, x, head.hex()))
     s2, f2, _, _ = observe(op, head, label)
     if f1.total == 0:
         return ck.viol("randfunc-ignored", "the supplied entropy source was never read")
@@ -250,6 +252,17 @@ def check_dsasig(L, kind, acc):
     if sysn:
         acc.count("blinding_draws_from_system_rng", sysn)
 
+
+DSA_NONCE_SCRIPT = """from Crypto.PublicKey import DSA
+from Crypto.Signature import DSS
+from Crypto.Hash import SHA256
+p, q, g, x = %d, %d, %d, %d
+key = DSA.construct((pow(g, x, p), g, p, q, x))
+head = bytes.fromhex("%s")          # the bytes the nonce sampler reads first
+tape = iter(head + bytes(1000))
+signer = DSS.new(key, "fips-186-3", randfunc=lambda n: bytes(next(tape) for _ in range(n)))
+signer.sign(SHA256.new(b"C18 message"))   # ValueError: k is not between 2 and q-1  (the sampler drew k = 1)
+"""
 
 DSAGEN_KINDS = ("zero", "ones", "x=1", "x=2", "x=q-1", "seeded")
 
